@@ -130,7 +130,8 @@ class IngestSuite(Suite):
     rule = ("1-3 files of one of six formats (MaxQuant, Percolator native / mokapot header, FragPipe, Sage, DIA-NN tsv), 1-12 PSM rows "
             "in any order, the same peptide under several modifications, charges and files, missing PEPs, mixed target/decoy protein "
             "lists, each file with its own peptide map when the score type remaps, unknown peptides; non-trivial = a peptide seen in "
-            ">= 2 rows with different PEPs and a protein list mixing targets and decoys")
+            ">= 2 rows with different PEPs and a protein list mixing targets and decoys; 40% of the multi-file inputs pass ONE map in a "
+            "one-element list, half of those after an earlier parse of the first 1-2 files that was handed the same list object")
 
     def gen(self, rng, tier):
         for _ in range(core.tier_n(tier, 500, 8000)):
@@ -147,7 +148,15 @@ class IngestSuite(Suite):
                         ps = [rng.choice(["", "", "REV__"]) + f"P{rng.randrange(5)}" for _ in range(rng.choice([1, 2, 3]))]
                         pmap[s] = list(dict.fromkeys(ps))
                 files.append({"rows": rows, "map": pmap, "flanks": rng.random() < 0.6})
-            yield {"fmt": fmt, "desc": desc, "files": files, "seed": rng.randint(0, 10 ** 9)}
+            case = {"fmt": fmt, "desc": desc, "files": files, "seed": rng.randint(0, 10 ** 9)}
+            if nfiles >= 2 and rng.random() < 0.4:
+                # one digest map for all files (the command line's usual shape: a one-element list), and - as with several methods
+                # in one command line - an earlier parse of the first files that was given the SAME list object
+                for f in files[1:]:
+                    f["map"] = files[0]["map"]
+                case["shared_map"] = True
+                case["prior"] = rng.choice([0, 1, 2]) if nfiles == 3 else rng.choice([0, 1])
+            yield case
 
     def _materialise(self, case):
         import random
@@ -168,6 +177,13 @@ class IngestSuite(Suite):
         paths = self._materialise(case)
         st = ProteinScoringStrategy(case["desc"])
         maps = [f["map"] for f in case["files"]]
+        if case.get("shared_map"):
+            maps = [case["files"][0]["map"]]
+            if case.get("prior"):
+                try:
+                    evidence.parse_evidence_files(paths[:case["prior"]], maps, ProteinScoringStrategy(case["desc"]), True)
+                except Exception:
+                    pass
         try:
             pil = evidence.parse_evidence_files(paths, maps, st, True)
         except Exception as e:
